@@ -41,7 +41,8 @@ EXPLANATION = (
     "refill_rate). (L4) no await between bucket lookup and return, none in consume, none "
     "between computing the eviction set and deleting. (L5) only time.monotonic is read. (L6) "
     "abstract evaluation: consume() false -> (False, '44 ...retry_after...'), true -> (True, None). "
-    "(L7) from_toml passes the configured capacity / refill_rate / retry_after through unchanged (abstract evaluation with the key set to 0) and get_rate_limit_config passes the like-named fields."
+    "(L7) from_toml passes the configured capacity / refill_rate / retry_after through unchanged (abstract evaluation with the key set to 0) and get_rate_limit_config passes the like-named fields. "
+    "(L8) With rate limiting enabled a RateLimiter is installed on every path of start_server."
 )
 
 MW = "server.middleware"
